@@ -251,6 +251,7 @@ func ruleC10(r *Report) {
 	r.Rule("C10.framing", "per cipher type Encrypt and Decrypt agree on framing: the prefix Decrypt strips is the prefix Encrypt prepends, padding added on one side is removed on the other", 2)
 	r.Rule("C10.flow", "in every block-cipher Encrypt the plaintext parameter flows (by value, not only by length) into the data operand of the cipher call whose output becomes the CipherValue, and the nonce/IV operand is the freshly generated buffer", 1)
 	r.Rule("C10.padding", "stripPadding rejects len<1, pad<1, pad>len and accepts a full block of padding (the empty plaintext)", 1)
+	r.Rule("C10.aead-plain", "the AEAD (GCM) decrypter returns the bytes Open produced, whole: the W3C GCM identifiers define no padding or other framing inside the authenticated plaintext", 1)
 	r.Rule("C10.digest", "RSA key decryption takes its hash from the element's DigestMethod (registry lookup, miss => error) and uses SHA-1 only when the element has none", 2)
 
 	algos := exportedAlgorithms(p)
@@ -396,6 +397,51 @@ func ruleC10(r *Report) {
 	checkC10Framing(r, p)
 	safely(r, func() { checkPadding(r, NewAnalysis(p), sc, "C10.padding", true) })
 	checkC10Digest(r, p)
+	safely(r, func() { checkAEADPlain(r, p, sc, "C10.aead-plain") })
+}
+
+// checkAEADPlain: in the function under xmlenc.Decrypt that calls AEAD.Open, every value returned as plaintext is the
+// first result of Open itself (followed through the unexported helpers the function hands it to).
+func checkAEADPlain(r *Report, p *Prog, sc *Scope, rule string) {
+	n := 0
+	for _, fn := range sortedFns(p, sc.Decrypt) {
+		opens := callsTo(fn, "(crypto/cipher.AEAD).Open")
+		if len(opens) == 0 || fn.Signature.Results().Len() != 2 {
+			continue
+		}
+		r.Fn(p.FnName(fn))
+		rg := NewRegion(p, fn, 2)
+		for _, ret := range returnsOf(fn) {
+			if len(ret.Results) != 2 || isNilConst(Resolve(ret.Results[0])) {
+				continue
+			}
+			n++
+			cons := fmt.Sprintf("%s: returned plaintext is Open's result", p.FnName(fn))
+			bad := ""
+			os := rg.Origins(RV{V: ret.Results[0], C: rg.top})
+			for _, o := range os {
+				if isNilConst(Resolve(o.V)) {
+					continue
+				}
+				okO := false
+				if ex, ok := o.V.(*ssa.Extract); ok && ex.Index == 0 {
+					for _, op := range opens {
+						okO = okO || ex.Tuple == op.(ssa.Value)
+					}
+				}
+				if !okO {
+					bad = o.V.String()
+					if in, ok := o.V.(ssa.Instruction); ok {
+						bad += " at " + p.InstrPos(in)
+					}
+				}
+			}
+			r.Check(len(os) > 0 && bad == "", rule, cons, p.InstrPos(ret), "the value returned is the first result of Open", "the plaintext handed back is not what Open produced: "+bad)
+		}
+	}
+	if n == 0 {
+		panic(unresolved{"role AEAD decrypter (function under xmlenc.Decrypt calling AEAD.Open and returning its plaintext)"})
+	}
 }
 
 func valueSignature(a algoValue) string {
